@@ -9,7 +9,7 @@ package checker
 //@   property C03 C04
 //@   mode nopanic
 //@   requires tree != nil && tree.Source != nil
-//@   ensures[expect-bool] config != nil && config.Expect == 1 && err == nil ==> t != nil && kind(t) == 1
+//@   ensures[expect-bool] config != nil && old(config.Expect) == 1 && err == nil ==> t != nil && kind(t) == 1
 
 // visit as seen from its callers: it annotates the tree and the visitor, returns a type (possibly nil)
 //@ func checker.visitor.visit returns t
